@@ -9,9 +9,9 @@ Traces == JsonDeserialize(IOEnv.TRACE_FILE)
 
 VARIABLES tid, l
 tvars == <<vars, tid, l>>
-\* the schema a trace was recorded on: position in FamilySeq (1 = TheSchema)
+\* the schema a trace was recorded on: index in the family (1 = TheSchema)
 TrSid(t) == IF "sid" \in DOMAIN Traces[t].init THEN Traces[t].init.sid ELSE 1
-TrS(t) == Bind(FamilySeq[TrSid(t)], RootPrefix(FamilySeq[TrSid(t)]))
+TrS(t) == LET raw == FamilyAt(TrSid(t)) IN Bind(raw, RootPrefix(raw))
 
 \* JSON has no sets and no empty records: rebuild configuration values
 RECURSIVE FixV(_)
@@ -32,9 +32,11 @@ FixOp(o) ==
 TraceInit ==
     /\ tid \in 1..Len(Traces)
     /\ l = 1
-    /\ sid = TrSid(tid) /\ sch = TrS(tid)
+    /\ sid = TrSid(tid)
     /\ cfgs = FixCfgs(Traces[tid].init.cfgs)
-    /\ LET d == DefaultCfg(TrS(tid), <<>>) IN \A n \in Names : Built(n) => cfgs[n] = d.cfg
+    /\ LET bound == TrS(tid)
+           d == DefaultCfg(bound, <<>>)
+       IN  sch = bound /\ \A n \in Names : Built(n) => cfgs[n] = d.cfg
     /\ ev = [op |-> "Init"]
     /\ steps = 0
 
